@@ -10,8 +10,9 @@ def _ref_group(name):
     from checks import refimpl as R, published_constants as PC
     if name == "Ed25519":
         return R.RefEdGroup()
-    if name == "toy11":
-        return R.RefIntGroup(23, 11, 2)
+    from checks import common as C
+    if name in C.TOYS:
+        return R.RefIntGroup(*C.TOYS[name])
     d = PC.INT_GROUPS[name]
     return R.RefIntGroup(d["p"], d["q"], d["g"])
 
@@ -42,7 +43,7 @@ class _Memo:
 SEEDS = [(b"M", b"N", b"symmetric"), (b"M2", b"N", b"symmetric"), (b"M", b"N2", b"symmetric2"),
          (b"ab", b"c", b"s"), (b"a", b"bc", b"s"), (b"", b"N", b""), (b"N", b"M", b"symmetric")]
 IDS = [(b"ab", b"c"), (b"a", b"bc"), (b"", b""), (b"abc", b""), (b"c", b"ab")]
-PWS = [b"pw", b"pW", b"p\x00"]
+PWS = [b"pw", b"", b"pW", b"p\x00"]
 
 
 def ref_state(rg, side, seeds, pw, idA, idB, x):
@@ -77,6 +78,9 @@ def session_matrix(groups=("Ed25519", "I1024", "toy11"), quick=True):
                 for pw in (PWS if not quick or gname != "Ed25519" else PWS[:2]):
                     for ids in ((IDS if sd == SEEDS[0] else IDS[:2]) if gname != "Ed25519" else IDS[:2]):
                         plan.append((sd, side, pw, ids))
+        big = gname in C.TOYS and g.element_size_bytes > 192
+        if big:       # very wide custom groups: a reduced plan (arithmetic cost), same dimensions
+            plan = [(sd, side, pw, ids) for (sd, side, pw, ids) in plan if sd in SEEDS[:2] and pw in PWS[:2] and ids == IDS[0]]
         if gname != "Ed25519":
             # a session whose first entropy draw is rejected (candidate >= q), then sessions with ordinary entropy
             nb = (q.bit_length() + 7) // 8
@@ -103,7 +107,7 @@ def session_matrix(groups=("Ed25519", "I1024", "toy11"), quick=True):
                 return "a default _Params(%s) built after custom parameter sets has %s != arbitrary_element(%r)" % (gname, nm_, sd_)
         # edge scalars, each session run twice in a row (a session must not spoil shared objects for its successor)
         edge = [(SEEDS[0], side, b"pw", IDS[0], xs, ys) for side in "ABS" for (xs, ys) in ((0, 5 % q), (3 % q, 0), (0, 0), (q - 1, 1))]
-        edge = [e for e in edge for _ in (0, 1)]
+        edge = [e for e in edge for _ in ((0,) if big else (0, 1))]
         full = [(sd, side, pw, ids, 3 % q, 5 % q) for (sd, side, pw, ids) in plan]
         for order in (edge + full, list(reversed(full)) + edge):
             for (sd, side, pw, ids, x, y) in order:
